@@ -385,6 +385,24 @@ def main():
     for c_, q_ in corpus_objects(histories=False):          # distilled regression inputs first (extrema on the interpolant, incl. origins just after the extremum)
         vv = []
         n = extremum_check(c_, q_, lambda key, what, **kw: vv.append(dict(key=key, what=what, cfg=jsonable(c_), **kw)))
+        # the Cartesian variants are point-wise rotations of the cylindrical ones by the GRID angle phi_j (so they converge exactly like them: no quadrature, no
+        # other angle enters); checked on the grid of every corpus object
+        try:
+            cph, sph = np.cos(q_.phi), np.sin(q_.phi); zz, oo = np.zeros_like(cph), np.ones_like(cph)
+            Qr = np.array([[cph, -sph, zz], [sph, cph, zz], [zz, zz, oo]])
+            for (rr, tt) in ((0.0, 0.0), (0.03, 1.1)):
+                Bc, Bx = q_.Bfield_cylindrical(rr, tt), q_.Bfield_cartesian(rr, tt); n += 1
+                if np.max(np.abs(Bx - np.einsum('ain,in->an', Qr, Bc))) > 1e-12 * max(np.max(np.abs(Bc)), 1e-300):
+                    vv.append(dict(key='cartesian-B', what='Bfield_cartesian(r=%g) is not the rotation of Bfield_cylindrical by the grid angle (max deviation %.3g at nphi=%d): its convergence with nphi is not that of the cylindrical field'
+                                   % (rr, float(np.max(np.abs(Bx - np.einsum('ain,in->an', Qr, Bc)))), q_.nphi), cfg=jsonable(c_))); break
+            if q_.order != 'r1':
+                Tc, Tx = np.asarray(q_.grad_grad_B_tensor_cylindrical()), np.asarray(q_.grad_grad_B_tensor_cartesian()); n += 1
+                rot = np.einsum('ain,bjn,ckn,ijkn->abcn', Qr, Qr, Qr, Tc)
+                if np.max(np.abs(Tx - rot)) > 1e-10 * max(np.max(np.abs(Tc)), 1e-300):
+                    vv.append(dict(key='cartesian-ggB', what='grad_grad_B_tensor_cartesian is not the rotation of the cylindrical variant by the grid angle (max deviation %.3g relative, nphi=%d)'
+                                   % (float(np.max(np.abs(Tx - rot))) / max(float(np.max(np.abs(Tc))), 1e-300), q_.nphi), cfg=jsonable(c_)))
+        except Exception:
+            pass
         # the integer that decides which branch of iota the sequence over nphi converges to: helicity = sG * spsi * (turns of the normal) on every grid that resolves the normal
         try:
             import oracle_C13
